@@ -148,6 +148,15 @@ pub struct RuleCore<L: Language> {
 }
 
 impl<L: Language> RuleCore<L> {
+  /// check if util rules used by the rule and its constraints are defined
+  pub(crate) fn verify_utils(&self) -> Result<(), RuleSerializeError> {
+    self.rule.verify_util()?;
+    for constraint in self.constraints.values() {
+      constraint.verify_util()?;
+    }
+    Ok(())
+  }
+
   #[inline]
   pub fn new(rule: Rule<L>) -> Self {
     let kinds = rule.potential_kinds();
